@@ -114,7 +114,7 @@ func (f *Font) MakeGlyphNames() []string {
 			for _, subtable := range lookup.Subtables {
 				switch subtable := subtable.(type) {
 				case *gtab.Gsub1_1:
-					for origGid := range subtable.Cov {
+					for _, origGid := range subtable.Cov.Glyphs() {
 						newGid := origGid + subtable.Delta
 						if glyphNames[origGid] == "" || glyphNames[newGid] != "" {
 							continue
@@ -122,7 +122,8 @@ func (f *Font) MakeGlyphNames() []string {
 						glyphNames[newGid] = makeVariant(used, glyphNames[origGid])
 					}
 				case *gtab.Gsub1_2:
-					for origGid, idx := range subtable.Cov {
+					for _, origGid := range subtable.Cov.Glyphs() {
+						idx := subtable.Cov[origGid]
 						newGid := subtable.SubstituteGlyphIDs[idx]
 						if glyphNames[origGid] == "" || glyphNames[newGid] != "" {
 							continue
@@ -130,7 +131,8 @@ func (f *Font) MakeGlyphNames() []string {
 						glyphNames[newGid] = makeVariant(used, glyphNames[origGid])
 					}
 				case *gtab.Gsub3_1:
-					for origGid, idx := range subtable.Cov {
+					for _, origGid := range subtable.Cov.Glyphs() {
+						idx := subtable.Cov[origGid]
 						if glyphNames[origGid] == "" {
 							continue
 						}
@@ -142,7 +144,8 @@ func (f *Font) MakeGlyphNames() []string {
 					}
 				case *gtab.Gsub4_1:
 					var nn []string
-					for origGid, idx := range subtable.Cov {
+					for _, origGid := range subtable.Cov.Glyphs() {
+						idx := subtable.Cov[origGid]
 						name := glyphNames[origGid]
 						if name == "" {
 							continue
@@ -150,6 +153,10 @@ func (f *Font) MakeGlyphNames() []string {
 						nn = append(nn[:0], name)
 					replLoop:
 						for _, lig := range subtable.Repl[idx] {
+							if glyphNames[lig.Out] != "" {
+								// keep existing names (this includes ".notdef")
+								continue
+							}
 							nn = nn[:1]
 							for _, gid := range lig.In {
 								if name := glyphNames[gid]; name != "" {
